@@ -268,8 +268,17 @@ func vcond(e ast.Expr, recv string, consts map[string]string, fields map[string]
 	switch x := e.(type) {
 	case *ast.ParenExpr:
 		return vcond(x.X, recv, consts, fields)
+	case *ast.UnaryExpr:
+		if x.Op != token.NOT {
+			return "", fmt.Errorf("unsupported unary condition %s", x.Op)
+		}
+		a, err := vcond(x.X, recv, consts, fields)
+		if err != nil {
+			return "", err
+		}
+		return "(¬ (" + a + "))", nil
 	case *ast.BinaryExpr:
-		if x.Op == token.LOR {
+		if x.Op == token.LOR || x.Op == token.LAND {
 			a, err := vcond(x.X, recv, consts, fields)
 			if err != nil {
 				return "", err
@@ -277,6 +286,9 @@ func vcond(e ast.Expr, recv string, consts map[string]string, fields map[string]
 			b, err := vcond(x.Y, recv, consts, fields)
 			if err != nil {
 				return "", err
+			}
+			if x.Op == token.LAND {
+				return "(" + a + " ∧ " + b + ")", nil
 			}
 			return "(" + a + " ∨ " + b + ")", nil
 		}
